@@ -395,28 +395,140 @@ fn workbook_level(name: &str) -> bool {
 // ------------------------------------------------------------------------------------------------
 // descriptions for the model
 
-/// raw side of a sheet: `<part>:<relspart>><entry>,<entry>+<relspart>>…` ; entry = `x` (external) or `<target>.<0|1>` (1 = empty data)
-fn describe_raw(sk: &Skel, part: &str) -> String {
+/// what a raw sheet holds, structured: the sheet part, a hash of its bytes, and the closure of relationship parts
+/// (children first), every relationship external (`None`) or (target, zero-length?, hash of the bytes)
+#[derive(Clone, Debug, PartialEq)]
+pub struct RawDesc {
+    pub part: String,
+    pub hash: u64,
+    pub closure: Vec<(String, Vec<Option<(String, bool, u64)>>)>,
+}
+/// the raw sheet the reader should record for `part`, computed from the harness' own zip scan of the file
+pub fn raw_of_skel(sk: &Skel, part: &str) -> RawDesc {
     let mut cl = vec![];
     sk.closure(part, &mut cl, 0);
-    let rp: Vec<String> = cl
+    RawDesc {
+        part: part.to_string(),
+        hash: sk.parts.get(part).map(|b| fnv64(b)).unwrap_or(0),
+        closure: cl
+            .iter()
+            .map(|rn| {
+                (
+                    rn.clone(),
+                    sk.rels[rn]
+                        .iter()
+                        .map(|r| {
+                            if r.external {
+                                None
+                            } else {
+                                let b = sk.parts.get(&r.resolved);
+                                Some((r.resolved.clone(), b.map(|b| b.is_empty()).unwrap_or(true), b.map(|b| fnv64(b)).unwrap_or(0)))
+                            }
+                        })
+                        .collect(),
+                )
+            })
+            .collect(),
+    }
+}
+/// what the implementation holds for every sheet (hook `verif_raw_state`): `None` = deserialized
+pub fn raws_of_book(book: &Spreadsheet) -> Vec<Option<RawDesc>> {
+    book.verif_raw_state()
+        .into_iter()
+        .map(|s| {
+            s.map(|(part, hash, _len, closure)| RawDesc {
+                part,
+                hash,
+                closure: closure
+                    .into_iter()
+                    .map(|(rn, rels)| (rn, rels.into_iter().map(|(ext, t, h, len)| if ext { None } else { Some((t, len == 0, h)) }).collect()))
+                    .collect(),
+            })
+        })
+        .collect()
+}
+/// `<part>:<relspart>><entry>,<entry>+<relspart>>…:<hash>` ; entry = `x` (external) or `<target>.<0|1>.<hash>` (1 = empty data)
+pub fn render_raw(d: &RawDesc) -> String {
+    let rp: Vec<String> = d
+        .closure
         .iter()
-        .map(|rn| {
-            let es: Vec<String> = sk.rels[rn]
+        .map(|(rn, rels)| {
+            let es: Vec<String> = rels
                 .iter()
-                .map(|r| {
-                    if r.external {
-                        "x".to_string()
-                    } else {
-                        let empty = sk.parts.get(&r.resolved).map(|b| b.is_empty()).unwrap_or(true);
-                        format!("{}.{}", hex(&r.resolved), if empty { 1 } else { 0 })
-                    }
+                .map(|r| match r {
+                    None => "x".to_string(),
+                    Some((t, empty, h)) => format!("{}.{}.{:016x}", hex(t), if *empty { 1 } else { 0 }, h),
                 })
                 .collect();
             format!("{}>{}", hex(rn), es.join(","))
         })
         .collect();
-    format!("{}:{}", hex(part), rp.join("+"))
+    format!("{}:{}:{:016x}", hex(&d.part), rp.join("+"), d.hash)
+}
+fn describe_raw(sk: &Skel, part: &str) -> String {
+    render_raw(&raw_of_skel(sk, part))
+}
+/// the package as the model's reader sees it: every zip entry `<name>.<hash>.<0|1>` and, for a relationships part,
+/// `><entry>,…` with entry = `x` (external) or `<resolved target>`
+fn describe_pkg(sk: &Skel) -> String {
+    let mut seen = BTreeSet::new();
+    sk.order
+        .iter()
+        .filter(|n| seen.insert((*n).clone()))
+        .map(|n| {
+            let b = &sk.parts[n];
+            let head = format!("{}.{:016x}.{}", hex(n), fnv64(b), if b.is_empty() { 1 } else { 0 });
+            match sk.rels.get(n) {
+                Some(rels) => format!("{}>{}", head, rels.iter().map(|r| if r.external { "x".to_string() } else { hex(&r.resolved) }).collect::<Vec<_>>().join(",")),
+                None => head,
+            }
+        })
+        .collect::<Vec<_>>()
+        .join(";")
+}
+
+// name classes, as the model has them (`isSheetName`, `isRelsName`, `reserved`, `targetOk`, `hygienic`)
+fn is_sheet_name(n: &str) -> bool {
+    n.strip_prefix("xl/worksheets/sheet").and_then(|x| x.strip_suffix(".xml")).map(|m| !m.is_empty() && m.bytes().all(|b| b.is_ascii_digit()) && (m == "0" || !m.starts_with('0'))).unwrap_or(false)
+}
+fn is_rels_name(n: &str) -> bool {
+    let v: Vec<&str> = n.split('/').collect();
+    v.len() >= 2 && v[v.len() - 2] == "_rels" && v[v.len() - 1].ends_with(".rels") && v[v.len() - 1].len() > 5
+}
+fn reserved(n: &str) -> bool {
+    matches!(
+        n,
+        "[Content_Types].xml" | "_rels/.rels" | "xl/workbook.xml" | "xl/styles.xml" | "xl/sharedStrings.xml" | "xl/theme/theme1.xml" | "xl/vbaProject.bin" | "docProps/app.xml" | "docProps/core.xml" | "docProps/custom.xml" | "xl/_rels/workbook.xml.rels"
+    )
+}
+fn target_ok(n: &str) -> bool {
+    !is_sheet_name(n) && !is_rels_name(n) && !reserved(n)
+}
+pub fn hygienic(d: &RawDesc) -> bool {
+    !is_rels_name(&d.part)
+        && !reserved(&d.part)
+        && d.closure.iter().all(|(rn, rels)| {
+            let src_ok = is_rels_name(rn)
+                && match rels_source(rn) {
+                    Some((src, _)) => src == d.part || d.closure.iter().any(|(_, rs)| rs.iter().any(|r| matches!(r, Some((t, _, _)) if *t == src))),
+                    None => false,
+                };
+            src_ok && rels.iter().all(|r| match r {
+                None => true,
+                Some((t, _, _)) => target_ok(t) && *t != d.part,
+            })
+        })
+}
+/// names owned by the closure of a raw sheet (relationship parts and non-external targets)
+fn closure_names(d: &RawDesc) -> BTreeSet<String> {
+    let mut v = BTreeSet::new();
+    for (rn, rels) in &d.closure {
+        v.insert(rn.clone());
+        for r in rels.iter().flatten() {
+            v.insert(r.0.clone());
+        }
+    }
+    v
 }
 
 const FAMS: [(&str, &str, &str); 8] = [
@@ -498,10 +610,20 @@ pub struct State {
     pub unstable: Vec<Vec<&'static str>>,
     pub dead: bool,
     pub base_dumps: Option<Option<Vec<Vec<(&'static str, String)>>>>,
+    /// the closure of every sheet part of the file is hygienic (hypothesis `pkgOk` of the theorems)
+    pub pkg_ok: bool,
+}
+fn bucket(n: usize) -> String {
+    match n {
+        0..=4 => n.to_string(),
+        5..=9 => "5-9".into(),
+        10..=19 => "10-19".into(),
+        _ => "20+".into(),
+    }
 }
 impl State {
     pub fn new() -> Self {
-        State { lazy: None, eager: None, control: None, file: String::new(), bytes: vec![], orig: None, orig_sheet_parts: vec![], orig_dumps: vec![], origin: vec![], edited: vec![], renamed: vec![], cells: vec![], unstable: vec![], dead: true, base_dumps: None }
+        State { lazy: None, eager: None, control: None, file: String::new(), bytes: vec![], orig: None, orig_sheet_parts: vec![], orig_dumps: vec![], origin: vec![], edited: vec![], renamed: vec![], cells: vec![], unstable: vec![], dead: true, base_dumps: None, pkg_ok: false }
     }
 }
 
@@ -617,6 +739,22 @@ pub fn generate(spec: &str) -> Result<Vec<u8>, String> {
                 let mut chart = umya_spreadsheet::structs::Chart::default();
                 chart.new_chart(umya_spreadsheet::structs::ChartType::LineChart, from_marker, to_marker, vec![&area]).set_series_title(vec!["S1"]).set_series_point_title(vec!["a", "b", "c"]);
                 book.get_sheet_mut(&i).unwrap().add_chart(chart);
+            }
+        }
+        // the same picture on several sheets: the closures of those sheets share the part xl/media/shared.png
+        if rng.chance(1, 2) {
+            const PNG: [u8; 67] = [
+                0x89, 0x50, 0x4E, 0x47, 0x0D, 0x0A, 0x1A, 0x0A, 0x00, 0x00, 0x00, 0x0D, 0x49, 0x48, 0x44, 0x52, 0x00, 0x00, 0x00, 0x01, 0x00, 0x00, 0x00, 0x01, 0x08, 0x06, 0x00, 0x00, 0x00, 0x1F, 0x15, 0xC4, 0x89, 0x00, 0x00, 0x00, 0x0A, 0x49, 0x44,
+                0x41, 0x54, 0x78, 0x9C, 0x63, 0x00, 0x01, 0x00, 0x00, 0x05, 0x00, 0x01, 0x0D, 0x0A, 0x2D, 0xB4, 0x00, 0x00, 0x00, 0x00, 0x49, 0x45, 0x4E, 0x44, 0xAE, 0x42, 0x60, 0x82,
+            ];
+            for i in 0..n {
+                if rng.chance(2, 3) {
+                    let mut marker = umya_spreadsheet::structs::drawing::spreadsheet::MarkerType::default();
+                    marker.set_coordinate("N2");
+                    let mut img = umya_spreadsheet::structs::Image::default();
+                    img.new_image_with_dimensions(8, 8, "shared.png", PNG.to_vec(), marker);
+                    book.get_sheet_mut(&i).unwrap().add_image(img);
+                }
             }
         }
         save_book(&book)
@@ -760,7 +898,20 @@ pub fn open_case(out: &mut Out, id: &str, line: &str) -> (State, Option<String>)
             st.orig = Some(sk);
             st.dead = false;
             out.count(&format!("sheets.{}", cnt.min(9)));
-            (st, Some(d.join(";")))
+            let x = describe_pkg(st.orig.as_ref().unwrap());
+            let raws: Vec<RawDesc> = st.orig_sheet_parts.iter().map(|p| raw_of_skel(st.orig.as_ref().unwrap(), p)).collect();
+            let ok = raws.iter().all(hygienic);
+            st.pkg_ok = ok;
+            out.count(&format!("reset.pkgok.{}", ok as u8));
+            let mut owners: BTreeMap<String, usize> = BTreeMap::new();
+            for r in &raws {
+                out.count(&format!("reset.closure-names.{}", bucket(closure_names(r).len())));
+                for n in closure_names(r) {
+                    *owners.entry(n).or_default() += 1;
+                }
+            }
+            out.count(&format!("reset.names-in-several-closures.{}", bucket(owners.values().filter(|c| **c > 1).count())));
+            (st, Some(format!("{} X={}", d.join(";"), x)))
         }
         (l, e) => {
             let (l, e) = (l.err().unwrap_or("ok".into()), e.err().unwrap_or("ok".into()));
@@ -786,7 +937,7 @@ pub fn exec(out: &mut Out, st: &mut State, line: &str) -> (String, bool) {
         if st.dead {
             ("skip".into(), false)
         } else {
-            (format!("ok {}", status(st.lazy.as_ref().unwrap())), true)
+            (format!("ok {} open=1 ## pkgok={}", status(st.lazy.as_ref().unwrap()), st.pkg_ok as u8), true)
         }
     } else if st.dead {
         ("dead".into(), false)
@@ -1113,8 +1264,78 @@ fn exec_op(out: &mut Out, st: &mut State, line: &str, a: &[&str], n: &dyn Fn(usi
             }
         }
         "save" => exec_save(out, st, line),
+        "inv" => exec_inv(out, st, line),
         _ => ("bad-op".into(), false),
     }
+}
+
+
+/// the state of the lazily opened workbook as the hook reports it: `-` for a deserialized sheet
+fn describe_state(book: &Spreadsheet) -> String {
+    raws_of_book(book).iter().map(|r| match r { None => "-".to_string(), Some(d) => render_raw(d) }).collect::<Vec<_>>().join(";")
+}
+
+/// `inv`: package consistency of the implementation's state, evaluated here independently of the model (every raw sheet
+/// holds exactly what the harness' own zip scan of the file computes for one of its sheet parts — the sheet part the
+/// harness tracks for that position —, and the closure is hygienic); the model evaluates `consistent` on the same state
+fn exec_inv(out: &mut Out, st: &mut State, line: &str) -> (String, bool) {
+    let l = st.lazy.as_ref().unwrap();
+    let raws = match guard(|| raws_of_book(l)) {
+        Ok(r) => r,
+        Err(_) => return ("panic".into(), false),
+    };
+    let orig = st.orig.as_ref().unwrap();
+    let mut bad = vec![];
+    let mut hyg = true;
+    let mut owners: BTreeMap<String, usize> = BTreeMap::new();
+    let mut nraw = 0;
+    let mut nparts = 0;
+    for (i, r) in raws.iter().enumerate() {
+        let d = match r {
+            Some(d) => d,
+            None => continue,
+        };
+        nraw += 1;
+        let names = closure_names(d);
+        nparts += names.len();
+        for n in names {
+            *owners.entry(n).or_default() += 1;
+        }
+        hyg &= hygienic(d);
+        if !st.orig_sheet_parts.contains(&d.part) {
+            bad.push(format!("raw sheet {} holds {} which is no sheet part of the file", i, d.part));
+            continue;
+        }
+        match st.origin.get(i).copied().flatten() {
+            Some(k) if st.orig_sheet_parts[k] == d.part => {}
+            o => bad.push(format!("raw sheet {} holds the part {} but came from sheet {:?} of the file", i, d.part, o)),
+        }
+        let want = raw_of_skel(orig, &d.part);
+        if *d != want {
+            let what = if d.hash != want.hash {
+                "sheet bytes"
+            } else if d.closure.len() != want.closure.len() {
+                "number of relationship parts in the closure"
+            } else {
+                "closure content"
+            };
+            bad.push(format!("raw sheet {} ({}) no longer holds what the file has: {}", i, d.part, what));
+        }
+    }
+    let overlap = owners.values().filter(|c| **c > 1).count();
+    out.count(&format!("inv.raw-sheets.{}", nraw.min(6)));
+    out.count(&format!("inv.closure-names.{}", bucket(nparts)));
+    out.count(&format!("inv.names-in-several-closures.{}", bucket(overlap)));
+    if bad.is_empty() {
+        out.oracle_ok();
+    } else {
+        bad.truncate(4);
+        out.oracle_fail(Fail::new("invariant-broken").with("op", line).with("file", &st.file).with("flags", flags(l)).with("detail", bad.join("; ")));
+    }
+    if !hyg {
+        out.count("inv.not-hygienic");
+    }
+    (format!("ok cons={} same=1 ## raw={} names={} shared={}", (bad.is_empty() && hyg) as u8, nraw, nparts, overlap), nraw > 0)
 }
 
 /// sheet dumps after `lazy open; save; eager reopen` of the unchanged file (every sheet copied raw): the reference for
@@ -1574,9 +1795,9 @@ fn history(rng: &mut Rng, n: usize, k: usize, orders: &[Vec<usize>], allow_wb: b
 pub fn run(out: &mut Out, tier: Tier, seed: u64, replay: Option<Vec<String>>) {
     let mut st = State::new();
     out.flush_each = tier == Tier::Thorough;
-    let mut step = |out: &mut Out, st: &mut State, op: &str| {
+    let mut step1 = |out: &mut Out, st: &mut State, op: &str| -> bool {
         // requests that carry a description get it (re)computed from the state
-        let core: Vec<&str> = op.split(' ').take_while(|x| !x.starts_with("D=") && !x.starts_with("P=")).collect();
+        let core: Vec<&str> = op.split(' ').take_while(|x| !x.starts_with("D=") && !x.starts_with("P=") && !x.starts_with("S=") && !x.starts_with("X=")).collect();
         let a = core.clone();
         let mut full = core.join(" ");
         if a.len() >= 3 && a[1] == "reset" {
@@ -1584,6 +1805,10 @@ pub fn run(out: &mut Out, tier: Tier, seed: u64, replay: Option<Vec<String>>) {
             *st = new_st;
             if let Some(d) = d {
                 full = format!("{} D={}", full, d);
+            }
+        } else if a.len() >= 2 && a[1] == "inv" && !st.dead {
+            if let Some(Ok(d)) = st.lazy.as_ref().map(|l| guard(|| describe_state(l))) {
+                full = format!("{} S={}", full, d);
             }
         } else if a.len() >= 2 && a[1] == "save" && !st.dead {
             if let Some(e) = st.eager.as_ref() {
@@ -1606,13 +1831,23 @@ pub fn run(out: &mut Out, tier: Tier, seed: u64, replay: Option<Vec<String>>) {
             out.count(&format!("save.loaded-sheets.{}", (fl.len() - r).min(6)));
         }
         out.end(&full, &reply, nt);
+        reply.starts_with("ok") && matches!(kind, "reset" | "read" | "getmut" | "byname" | "readall" | "collmut" | "edit" | "style" | "annot" | "newsheet" | "rmsheet" | "rmname" | "rename" | "insrow" | "remrow")
     };
     if let Some(lines) = replay {
+        // a replay holds the `inv` requests of the run it came from
         for l in lines {
-            step(out, &mut st, &l);
+            step1(out, &mut st, &l);
         }
         return;
     }
+    // generated histories: the invariant is evaluated after every request that changed (or may have changed) the state
+    let mut step = |out: &mut Out, st: &mut State, op: &str| {
+        if step1(out, st, op) && !st.dead {
+            let kind = op.split(' ').nth(1).unwrap_or("?").to_string();
+            out.count(&format!("inv.after.{}", kind));
+            step1(out, st, "c11 inv");
+        }
+    };
     let mut rng = Rng::new(seed ^ 0xC11);
     let mut files: Vec<String> = vec![];
     let per_file;
